@@ -31,6 +31,7 @@ struct Args {
     root: PathBuf,
     no_evidence: bool,
     part: Option<String>,
+    dump_seeds: Option<(PathBuf, usize)>,
 }
 
 fn parse_args() -> Result<Args, String> {
@@ -45,6 +46,7 @@ fn parse_args() -> Result<Args, String> {
         root: PathBuf::from("/verif"),
         no_evidence: false,
         part: None,
+        dump_seeds: None,
     };
     let mut it = std::env::args().skip(1);
     while let Some(x) = it.next() {
@@ -58,6 +60,11 @@ fn parse_args() -> Result<Args, String> {
             "--root" => a.root = PathBuf::from(it.next().ok_or("--root needs a dir")?),
             "--no-evidence" => a.no_evidence = true,
             "--part" => a.part = Some(it.next().ok_or("--part needs a value")?),
+            "--dump-seeds" => {
+                let d = PathBuf::from(it.next().ok_or("--dump-seeds needs a dir")?);
+                let n = it.next().ok_or("--dump-seeds needs a count")?.parse().map_err(|_| "bad count")?;
+                a.dump_seeds = Some((d, n));
+            }
             "--list" => {
                 for p in checks::props() {
                     println!("{}", p.id);
@@ -75,57 +82,6 @@ fn parse_args() -> Result<Args, String> {
         return Err(format!("bad tier {}", a.tier));
     }
     Ok(a)
-}
-
-// ---------------------------------------------------------------------------------------
-// known findings
-
-#[derive(Debug, Clone)]
-struct KnownEntry {
-    fixed: bool,
-    property: String,
-    sig: String,
-    text: String,
-}
-
-fn load_known(root: &Path) -> Vec<KnownEntry> {
-    let p = root.join("KNOWN_FINDINGS.txt");
-    let Ok(s) = std::fs::read_to_string(&p) else {
-        return Vec::new();
-    };
-    let mut v = Vec::new();
-    for line in s.lines() {
-        let line = line.trim();
-        if line.is_empty() || line.starts_with('#') {
-            continue;
-        }
-        let (fixed, rest) = if let Some(r) = line.strip_prefix("known:") {
-            (false, r.trim())
-        } else if let Some(r) = line.strip_prefix("fixed:") {
-            (true, r.trim())
-        } else {
-            continue;
-        };
-        let mut property = String::new();
-        let mut sig = String::new();
-        let mut text = Vec::new();
-        for tok in rest.split_whitespace() {
-            if let Some(p) = tok.strip_prefix("property=") {
-                property = p.to_string();
-            } else if let Some(s) = tok.strip_prefix("sig=") {
-                sig = s.to_string();
-            } else {
-                text.push(tok);
-            }
-        }
-        v.push(KnownEntry {
-            fixed,
-            property,
-            sig,
-            text: text.join(" "),
-        });
-    }
-    v
 }
 
 // ---------------------------------------------------------------------------------------
@@ -404,25 +360,18 @@ fn main() {
     }
 
     // --- known findings: deterministic probes ------------------------------------------------
-    let known = load_known(&args.root);
+    let known = vp_core::known::load(&args.root);
     let mut known_lines = Vec::new();
-    for (sig, probe) in p.probes {
-        let listed = known.iter().find(|k| !k.fixed && k.property == p.id && k.sig == *sig);
-        let res = std::panic::catch_unwind(std::panic::AssertUnwindSafe(|| probe(&ctx)));
-        match res {
-            Ok(Some(text)) => {
-                if let Some(k) = listed {
-                    println!("KNOWN-FINDING: property={} sig={} {} [{}]", p.id, sig, k.text, text);
-                    known_lines.push(format!("{sig}: {text}"));
-                    ctx.active_known.push((*sig).to_string());
-                }
-                // not listed: leave the region in the search; the generated checks will report it
+    match vp_core::known::activate(&mut ctx, &p, &known) {
+        Ok(rep) => {
+            for k in rep {
+                println!("KNOWN-FINDING: property={} sig={} {} [{}]", p.id, k.sig, k.listed_text, k.probe_text);
+                known_lines.push(format!("{}: {}", k.sig, k.probe_text));
             }
-            Ok(None) => {}
-            Err(_) => {
-                eprintln!("vp-run: known-finding probe {sig} panicked");
-                std::process::exit(2);
-            }
+        }
+        Err(e) => {
+            eprintln!("vp-run: {e}");
+            std::process::exit(2);
         }
     }
 
@@ -450,6 +399,28 @@ fn main() {
                 std::process::exit(2);
             }
         }
+    }
+
+    if let Some((dir, n)) = &args.dump_seeds {
+        // write the first n distinct non-trivial tapes of a fixed pseudo-random sequence (fuzz seed corpus)
+        let _ = std::fs::create_dir_all(dir);
+        let mut st = 0x5EED_u64 ^ hash_bytes(p.id.as_bytes());
+        let mut seen = HashSet::new();
+        let mut written = 0;
+        let mut tries = 0;
+        while written < *n && tries < 200_000 {
+            tries += 1;
+            let tape: Vec<u8> = (0..p.tape_len).map(|_| vp_core::tape::splitmix(&mut st) as u8).collect();
+            if let CaseOutcome::Pass { report, hash } = eval_case(&ctx, &p, &tape, false) {
+                let key = report.labels.join(",");
+                if report.nontrivial && seen.insert((key, hash % 4)) {
+                    let _ = std::fs::write(dir.join(format!("seed-{written:03}.bin")), &tape);
+                    written += 1;
+                }
+            }
+        }
+        println!("wrote {written} seed tapes to {}", dir.display());
+        std::process::exit(0);
     }
 
     let mut total = Stats::default();
